@@ -488,14 +488,19 @@ func tryReadTrailer(t *protocol.Trailer, r network.Reader, n int) error {
 }
 
 func parseTrailer(t *protocol.Trailer, buf []byte) (int, error) {
-	// Skip any 0 length chunk.
+	// Skip any 0 length chunk: a line that is "0" and nothing else. (A trailer field
+	// whose name merely begins with 0 is a field.)
+	skipped := 0
 	if buf[0] == '0' {
 		skip := len(bytestr.StrCRLF) + 1
 		if len(buf) < skip {
 			// not an error: the rest of the line has not been received yet
 			return 0, errs.ErrNeedMore
 		}
-		buf = buf[skip:]
+		if buf[1] == '\r' && buf[2] == '\n' {
+			buf = buf[skip:]
+			skipped = skip
+		}
 	}
 
 	// Scan once without storing anything: a value must only be stored when the whole
@@ -529,7 +534,7 @@ func parseTrailer(t *protocol.Trailer, buf []byte) (int, error) {
 	if err != nil {
 		return 0, err
 	}
-	return s.HLen, nil
+	return skipped + s.HLen, nil
 }
 
 // writeTrailer writes response trailer to w
